@@ -148,6 +148,38 @@ pub fn c14(tier: &str, seed: u64) -> Vec<Case> {
         } }
         d
     };
+    // stores as the services build them from what the application passes in: an instance whose one attribute entry
+    // (`key=value`) is 250 .. 260 bytes long - the constructors accept what fits a character-string and refuse the rest;
+    // whatever they accept must come out in replies that parse, with the attribute intact
+    for entry_len in 250usize..=260 {
+        let key = "k";
+        let val = "v".repeat(entry_len - 2);
+        let inst = InstanceInformation::new("edge".to_string()).with_ip_address(IpAddr::V4(Ipv4Addr::new(10, 3, 3, 3))).with_port(8400).with_attribute(key.to_string(), Some(val.clone()));
+        let fullname = mk_name(&[b"edge".to_vec(), b"_srv".to_vec(), b"_tcp".to_vec(), b"local".to_vec()]);
+        let recs = match std::panic::catch_unwind(|| inst.clone().into_records(&fullname, 120)) { Ok(Ok(r)) => r, Ok(Err(_)) => { v.push(Case::oracle_only().tag("attribute-boundary").tag("refused")); continue; } Err(_) => { v.push(Case::oracle_only().tag("attribute-boundary").fail("responder-panic", format!("into_records panics on an attribute entry of {} bytes", entry_len))); continue; } };
+        let mut mgr: ResourceRecordManager<'static> = ResourceRecordManager::new();
+        for rr in recs { mgr.add_authoritative_resource(rr); }
+        let mut c = Case::oracle_only().tag("attribute-boundary").tag("accepted");
+        if entry_len > 255 { c = c.fail("overlong-attribute-accepted", format!("an attribute entry of {} bytes does not fit a character-string and was accepted", entry_len)); }
+        for qt in [QTYPE::TYPE(TYPE::TXT), QTYPE::ANY] {
+            let mut q = Packet::new_query(78);
+            q.questions.push(Question::new(fullname.clone(), qt, CLASS::IN.into(), false));
+            let d = q.build_bytes_vec().unwrap();
+            let mref = &mgr;
+            match std::panic::catch_unwind(std::panic::AssertUnwindSafe(|| responder_step(mref, &d))) {
+                Err(_) => { c = c.fail("responder-panic", format!("attribute entry of {} bytes: the responder panics", entry_len)); }
+                Ok(None) => { c = c.fail("reply-differs", format!("attribute entry of {} bytes: no reply to a question for the registered TXT record", entry_len)); }
+                Ok(Some(b)) => match Packet::parse(&b) {
+                    Err(_) => { c = c.fail("reply-unparseable", format!("attribute entry of {} bytes: the reply is not a parseable DNS message", entry_len)); }
+                    Ok(rp) => {
+                        let ok = rp.answers.iter().any(|a| match &a.rdata { RData::TXT(t) => t.attributes().get(key).cloned().flatten().as_deref() == Some(val.as_str()), _ => false });
+                        if !ok { c = c.fail("reply-differs", format!("attribute entry of {} bytes: the attribute does not come back in the reply", entry_len)); }
+                    }
+                },
+            }
+        }
+        v.push(c);
+    }
     // a reply beyond 16 KiB: one name answering with 320 TXT records and an SRV record whose target owns
     // two address records, so that the target's name first appears past offset 16383 and is then used
     // again; the reply must still be a parseable message with the same records
